@@ -177,6 +177,19 @@ func (r *rewriter) isCancelCall(c *ast.CallExpr) bool {
 	return strings.Contains(strings.ToLower(idn.Name), "cancel")
 }
 
+func (r *rewriter) isPkgFunc(fun ast.Expr, pkg, name string) bool {
+	se, ok := fun.(*ast.SelectorExpr)
+	if !ok || se.Sel.Name != name || r.info == nil {
+		return false
+	}
+	x, ok := se.X.(*ast.Ident)
+	if !ok {
+		return false
+	}
+	pn, ok := r.info.Uses[x].(*types.PkgName)
+	return ok && pn.Imported().Path() == pkg
+}
+
 func (r *rewriter) isBuiltin(fun ast.Expr, name string) bool {
 	idn, ok := fun.(*ast.Ident)
 	if !ok || idn.Name != name {
@@ -207,7 +220,7 @@ var forbidden = map[string]map[string]bool{
 	"time":      {"Sleep": true, "After": true, "NewTimer": true, "AfterFunc": true, "Tick": true, "NewTicker": true},
 	"os/signal": {"Notify": true, "NotifyContext": true},
 	"net":       {"Dial": true, "Listen": true, "DialTimeout": true},
-	"context":   {"WithTimeout": true, "WithDeadline": true, "WithTimeoutCause": true, "WithDeadlineCause": true, "AfterFunc": true},
+	"context":   {"WithTimeout": true, "WithDeadline": true, "WithTimeoutCause": true, "WithDeadlineCause": true},
 }
 
 func (r *rewriter) checkForbidden(se *ast.SelectorExpr) {
@@ -297,6 +310,8 @@ func (r *rewriter) post(c *astutil.Cursor) bool {
 		if len(n.Args) == 1 && r.isBuiltin(n.Fun, "close") {
 			r.st.Closes++
 			c.Replace(r.vsCall("Close", n.Args[0]))
+		} else if r.isPkgFunc(n.Fun, "context", "AfterFunc") && len(n.Args) == 2 {
+			c.Replace(r.vsCall("CtxAfterFunc", n.Args...))
 		} else if r.ctxErr[n] {
 			r.st.CtxErrs++
 			c.Replace(r.vsCall("CtxErr", n.Fun.(*ast.SelectorExpr).X))
